@@ -963,3 +963,34 @@ fn compare_level(c: &CmdSpec, lv: &Level, ob: &Obs, up: Inherited, globals: &[Ar
     }
     bad
 }
+
+/// Which argument of the root level a long name resolves to under the root's own settings
+/// (exact match first, unique prefix under infer_long_args). For C08's rewrites.
+pub fn resolve_long_root(c: &CmdSpec, name: &str) -> Option<String> {
+    let inh = inherit(c, Inherited::default());
+    match find_long(c, &inh, name, &[]) {
+        Found::Arg(a, _) => Some(a.id.clone()),
+        _ => None,
+    }
+}
+
+/// Number of distinct things (arguments, help/version, flag subcommands) a long prefix could mean.
+pub fn long_candidates_root(c: &CmdSpec, prefix: &str) -> usize {
+    let inh = inherit(c, Inherited::default());
+    let mut ids: Vec<String> = vec![];
+    for a in &c.args {
+        let mut keys: Vec<&String> = a.long.iter().collect();
+        keys.extend(a.aliases.iter());
+        keys.extend(a.visible_aliases.iter());
+        if keys.iter().any(|k| k.starts_with(prefix)) && !ids.contains(&a.id) {
+            ids.push(a.id.clone());
+        }
+    }
+    if !inh.disable_help_flag && "help".starts_with(prefix) && !c.args.iter().any(|a| a.long.as_deref() == Some("help")) {
+        ids.push("<help>".into());
+    }
+    if has_version(c, &inh) && "version".starts_with(prefix) {
+        ids.push("<version>".into());
+    }
+    ids.len()
+}
